@@ -4,6 +4,7 @@ import json
 import re
 from typing import Iterable, Optional, Union
 
+from .._string_utils import parse_block_string
 from .._utils import classdispatch
 from . import ast as _ast
 
@@ -503,6 +504,10 @@ class ASTPrinter:
             return formatted
 
         desc_str = _block_string(desc.value, self.indent, True)
+        if not _is_block_string_for(desc_str, desc.value):
+            # Not every string can be written as a block string (control
+            # characters, leading or trailing blank lines, common indent).
+            desc_str = _quoted_string(desc.value)
         return _join([desc_str, formatted], "\n")
 
 
@@ -554,6 +559,13 @@ def _block_string(value: str, indent: str, is_description: bool = False) -> str:
     return '"""\n%s\n"""' % (
         escaped if is_description else _indent(escaped, indent)
     )
+
+
+def _is_block_string_for(formatted: str, value: str) -> bool:
+    if any(c < " " and c not in "\t\n" for c in value):
+        return False
+    raw = formatted[3:-3].replace('\\"""', '"""')
+    return parse_block_string(raw) == value
 
 
 def print_ast(
